@@ -49,4 +49,6 @@ var configs = map[string]config{
 		Assumptions: assume("'any parser configuration constructible from the public options' means options given non-nil values of their parameter types and total callback functions; BasicParser with a state override is exercised only through the setters; SearchParams handles come from SearchParams() / Clone (DESIGN §7.8)", "termination is decided by a 20 s per-case watchdog whose suspicion is confirmed by re-running the single case in a fresh process with a 120 s limit; a time budget hit is otherwise inconclusive, never a violation", "arguments are bounded to about 16 KB")},
 	"C14": {Tests: "^TestC14$", QuickChecks: 1200, ThoroughChecks: 8000, QuickShards: 8, ThoroughShards: 16, Race: true,
 		Assumptions: assume("the Go race detector is happens-before based: it reports two conflicting unsynchronised accesses whenever both occur in the run, independent of timing; interleavings are those the Go scheduler produced, not an enumeration", "'only read' = pure getters, Clone and use as a base; the first SearchParams() call on a shared URL hands out a mutable handle and is not in the concurrent operation set (DESIGN §7.4)", "a reported race is confirmed by replaying the program in a fresh process (the detector reports each race once per process); programs are not minimised further")},
+	"C20": {Tests: "^TestC20(Fixed)?$", QuickChecks: 40, ThoroughChecks: 300, QuickShards: 8, ThoroughShards: 16, StmtProbe: true,
+		Assumptions: assume("growth is measured, not proved: deterministic counters (bytes allocated, allocations, statements executed in the library) at n, 4n, 16n (n = 1000 for the fixed families; 500 for generated families in the quick tier); a super-linear term that only dominates beyond 16 K repetitions, or work inside dependencies that neither allocates nor executes repository statements, is not seen", "the verdict needs an exponent above 1.5 at the largest pair and above 1.4 at the pair below (linear with a logarithmic factor and amortised growth stay below 1.35 on this code; quadratic measures about 2.0)")},
 }
